@@ -2,6 +2,7 @@ import L4.Drv.Route
 import L4.Drv.Conn
 import L4.Drv.Match
 import L4.Drv.Codec
+import L4.Drv.LB
 open L4 L4.Drv
 
 def dispatch (line : String) : String :=
@@ -10,6 +11,7 @@ def dispatch (line : String) : String :=
   | "conn" :: rest => (doConn.run rest).1
   | "match" :: rest => (doMatch.run rest).1
   | "codec" :: rest => (doCodec.run rest).1
+  | "lb" :: rest => (doLB.run rest).1
   | _ => "bad-op"
 
 partial def loop (h : IO.FS.Stream) (out : IO.FS.Stream) : IO Unit := do
